@@ -9,8 +9,10 @@ the non-test code it counts the constructs that can panic in every profile
     index   (expr[..] : indexing and slicing)   split_at   copy_from_slice   drain
 
 and the check compares the census with the one the table in PanicFree.v was written against
-(/verif/panic_sites.json).  Counts per function are insensitive to renaming, reformatting and moving
-code inside a function; a new or removed site changes a count.  Overflow-only sites (arithmetic) are
+(/verif/panic_sites.json).  A file whose total has GROWN has a new panic site: a broken obligation of C10.
+Differences that keep or lower a file's total (unwrap -> expect, two slices -> one split_at, code moved between
+functions) are recorded in the evidence as a note only: harmless rewrites do that all the time, and a rewrite that
+moves a guard the wrong way is the business of the differential run under catch_unwind.  Overflow-only sites (arithmetic) are
 not counted: they are covered by the debug-profile runs of the correspondence check.
 
 Not counted: #[cfg(test)] items, src/verif_hooks.rs (the instrumentation itself), and the six
@@ -154,6 +156,20 @@ def compare(base, cur):
         if base.get(k, {}) != cur.get(k, {}):
             diffs.append("%s: enumerated %s, source now has %s" % (k, base.get(k, {}), cur.get(k, {})))
     return diffs
+
+
+def new_sites(base, cur):
+    """files whose total number of syntactic panic sites has GROWN: a site was added (rewrites that keep or lower
+    the count - unwrap -> expect, two slices -> one split_at, code moved between functions of a file - are not
+    reported; they show up in `compare` as a note only)"""
+    def totals(c):
+        t = {}
+        for k, v in c.items():
+            f = k.split("::")[0]
+            t[f] = t.get(f, 0) + sum(v.values())
+        return t
+    tb, tc = totals(base), totals(cur)
+    return ["%s: %d panic sites enumerated, source now has %d" % (f, tb.get(f, 0), tc[f]) for f in sorted(tc) if tc[f] > tb.get(f, 0)]
 
 
 if __name__ == "__main__":
